@@ -204,6 +204,42 @@ fn k_lost_all_rabbits() {
     gs.lost_all_rabbits(&pb);
 }
 
+// Harness-contract twins of the in-place contracts above: the same statements with a symbolic square, in the plain copy
+// of the crate.  They exist because concrete playback does not reproduce failures of contract closures natively.
+// @obl props=C04,C11,C19 tier=quick kind=harness-contract mem=3 est=20
+// @fns GameState::rabbit_at_goal GameState::lost_all_rabbits
+// @clause requires board_wf ensures rabbit_at_goal == goal_spec (goal rank 8 for Gold / 1 for Silver over all 8 files, last mover first) and lost_all_rabbits == elimination_spec (mover without rabbits loses first), both sides
+#[kani::proof]
+fn c04_goal_and_elimination() {
+    let side: bool = kani::any();
+    let gs = lean_state(side);
+    let pb = any_wf_board();
+    kani::cover!(rabbit_on_goal(&pb, true) && rabbit_on_goal(&pb, false));
+    kani::cover!(at(&pb, 63) == Some((Piece::Rabbit, false)), "a Silver rabbit on h1");
+    assert!(gs.rabbit_at_goal(&pb) == goal_spec(&pb, side), "C04: goal result (last mover's rabbit first, then the mover's)");
+    assert!(gs.lost_all_rabbits(&pb) == elimination_spec(&pb, side), "C04: elimination result (mover without rabbits loses first)");
+}
+// @obl props=C01,C02,C10,C19 tier=quick kind=harness-contract mem=3 est=20
+// @fns supported_pieces both_player_supported_pieces both_player_unsupported_piece_bits GameState::threatened_pieces
+// @clause forall words/boards, square i: supported_pieces(x) has bit i <=> i in x and an orthogonal neighbour of i (no wrap-around) in x; both_player_(un)supported: per owner; threatened_pieces == threatened_spec
+#[kani::proof]
+fn k_support_and_threat() {
+    let x: u64 = kani::any();
+    let i = any_sq();
+    kani::cover!(file_of(i) == 0);
+    assert!(bit(supported_pieces(x), i) == (bit(x, i) && any_dir(|d| match nbr(i, d) { Some(j) => bit(x, j), None => false })), "supported_pieces");
+    let pb = any_wf_board();
+    let sup = match at(&pb, i) {
+        Some((_, g)) => has_friend_nbr(&pb, i, g),
+        None => false,
+    };
+    assert!(bit(both_player_supported_pieces(&pb), i) == sup, "both_player_supported_pieces");
+    assert!(bit(both_player_unsupported_piece_bits(&pb), i) == (at(&pb, i).is_some() && !sup), "both_player_unsupported_piece_bits");
+    let (pred, prey): (u64, u64) = (kani::any(), kani::any());
+    let gs = lean_state(kani::any());
+    assert!(bit(gs.threatened_pieces(pred, prey, &pb), i) == threatened_spec(&pb, pred, prey, i), "threatened_pieces");
+}
+
 // ===========================================================================
 // C02  PieceBoard::take_action : a step moves one piece one square and captures
 //      exactly the unsupported trap pieces
